@@ -5,6 +5,8 @@
 
 #include "rkcommon/tasking/parallel_for.h"
 #include "rkcommon/tasking/parallel_foreach.h"
+#include <deque>
+#include <iterator>
 #include "rkcommon/tasking/schedule.h"
 #include "rkcommon/tasking/tasking_system_init.h"
 
@@ -374,6 +376,66 @@ static void run_case_impl(const Case &c, pbt::Ctx &ctx)
           ctx.label("blocks-with-remainder");
       });
     });
+  } else if (c.type % 3 != 0 && !nest) {
+    // parallel_foreach over a range whose elements are NOT one contiguous array: a std::deque (random-access iterators,
+    // storage in chunks) or the reverse iterators of a vector.  Both satisfy the function's stated requirement (random-access
+    // iterators); "every element of the range exactly once, and nothing else" is about the range, not about memory layout.
+    const bool useDeque = c.type % 3 == 1;
+    long long n = c.n < 0 ? 0 : (c.n > 20000 ? 20000 : c.n);
+    struct Elem
+    {
+      std::atomic<uint32_t> hits{0};
+      uint32_t plain = 0;
+      uint32_t self = 0;
+      uint32_t magic = 0;
+    };
+    std::deque<Elem> d;
+    std::vector<Elem> v;
+    if (useDeque)
+      d = std::deque<Elem>((size_t)n);
+    else
+      v = std::vector<Elem>((size_t)n);
+    auto at = [&](long long i) -> Elem & { return useDeque ? d[(size_t)i] : v[(size_t)i]; };
+    for (long long i = 0; i < n; ++i) {
+      at(i).self = (uint32_t)i;
+      at(i).magic = 0xC01C01u;
+    }
+    long long lo = 0, hi = n;
+    if (api == 1 && n >= 2) {
+      lo = (c.inner + c.block) % (n / 2 + 1);
+      hi = n - (c.block % (n / 4 + 1));
+    }
+    effN = hi - lo;
+    std::atomic<long long> outside{0};
+    auto body = [&](Elem &e) {
+      if (e.magic != 0xC01C01u || (long long)e.self >= n || &at((long long)e.self) != &e || (long long)e.self < lo || (long long)e.self >= hi) {
+        outside++;
+        return;
+      }
+      e.hits.fetch_add(1, std::memory_order_relaxed);
+      e.plain = e.self + 1;
+      costOf(c.cost, (long long)e.self, n);
+    };
+    if (useDeque) {
+      if (api == 1)
+        parallel_foreach(d.begin() + lo, d.begin() + hi, body);
+      else
+        parallel_foreach(d, body);
+      ctx.label("foreach over a std::deque");
+    } else {
+      // reversed: the range [lo,hi) of the vector, walked from hi-1 down to lo
+      parallel_foreach(std::make_reverse_iterator(v.begin() + hi), std::make_reverse_iterator(v.begin() + lo), body);
+      ctx.label("foreach over reverse iterators");
+    }
+    PBT_ASSERT_MSG(outside.load() == 0, "parallel_foreach handed " << outside.load() << " objects to the function that are not elements of the range ("
+                                                                    << (useDeque ? "std::deque" : "reverse iterators") << ", " << n << " elements, range [" << lo << "," << hi << "))");
+    for (long long i = 0; i < n; ++i) {
+      uint32_t want = (i >= lo && i < hi) ? 1u : 0u;
+      PBT_ASSERT_MSG(at(i).hits.load() == want, "element " << i << " of " << n << " (" << (useDeque ? "std::deque" : "reverse iterators") << ", range [" << lo << "," << hi << ")) visited " << at(i).hits.load() << " times");
+      PBT_ASSERT(at(i).plain == (want ? (uint32_t)i + 1 : 0u));
+    }
+    if (effN == 0)
+      ctx.label("foreach-empty-range");
   } else {
     // parallel_foreach over a vector: each element exactly once, addressed by reference
     long long n = c.n < 0 ? 0 : (c.n > (1ll << 20) ? (1ll << 20) : c.n);
